@@ -27,6 +27,22 @@ CHECKS = {
    text="Fault enumeration in virtual time around the real qbft.Run with the REAL round timers (eager double-linear and increasing) on a fake clock: for n=4 every crashed member x crash point (silent, or inside its k-th broadcast) x recipient subset x leader rotation, sampled for n=5..7 with up to f crashes, start offsets < 1 round, per-link latencies < 1/3 of the shortest timeout; each timed trace is validated step by step against QBFT.tla and the trace spec evaluates BoundedDecision (every running member decides in a round <= r0 + n) and NoHonestUnjust; NoHonestUnjust is also model-checked exhaustively in the untimed micro-configurations.",
    note="Trusted: TLC; clockwork.FakeClock as time source; the discrete-event scheduler of the executor (50 ms ticks). The timed behaviour is explored by enumeration in the executor, not by an exhaustive timed TLA+ model (see DESIGN.md).",
    technique="TLA+ spec of QBFT (untimed legality + timed trace invariants) checked with TLC; crash-point enumeration executed on real qbft.Run + real round timers; TLC trace validation"),
+ "C17": dict(level=MC, design="6/C17", engine="AggSigDB",
+   text="TLC exhausts all interleavings of reader calls over overlapping keys, one- and two-entry Store calls (equal and conflicting re-stores, both map orders), cancellations, expiries and the internal steps of both implementations (actor loop / RWMutex + broadcast) for ReadsStored, CancelSound, NoLostWakeup, ValueStable, MismatchNoChange and liveness under fairness, with control configs (as-coded capacity-1 notify, no notify on failed store) that must fail; TLC-generated and seeded random schedules (up to 8, thorough 14, concurrent readers) are executed on aggsigdb.NewMemDB and NewMemDBV2 and every trace is validated step by step against the same spec.",
+   note="Trusted: TLC, the scripted deadliner stub, the 5 s must-return wait (a 50 ms probe affects detection only). Exhaustive only within the stated constants (2-3 readers, 2x2 keys, 2-3 stores).",
+   technique="TLA+ spec (AggSigDB.tla, both implementations) model-checked with TLC incl. liveness; schedules replayed on both MemDB implementations; TLC trace validation"),
+ "C15": dict(level=MC, design="6/C15", engine="Scheduler",
+   text="Scheduler.tla transcribes scheduleSlot, resolveDuties, resolve*Duties, setDutyDefinition, newSlotTicker and delaySlotOffset goroutine by goroutine; TLC exhausts 3 epochs of 3 slots with validators that activate, exit or are foreign, all clock-jump (missed tick) patterns and up to 1 (3 in one config) failing beacon calls for AtMostOnce, OnlyAssigned, NotEarly, Complete and the ticker invariants, with six control variants that must each violate the invariant they target; traces of the real scheduler (direct, through the real DutiesCache, and with the cache disabled) inside a testing/synctest bubble with a fake clock are validated against the spec.",
+   note="Trusted: TLC; testing/synctest quiescence; fake clock; beacon requests and subscribers take no time; 'not early' is judged on the deadline handed to the delay function; one set of assignments per schedule; reorg handling is out of scope.",
+   technique="TLA+ spec (Scheduler.tla) model-checked with TLC; schedules replayed on scheduler.NewForT under synctest; TLC trace validation"),
+ "C10": dict(level=EX, design="6/C10", engine="Admission",
+   text="Admission.tla transcribes the admission checks of every signed-input endpoint of validatorapi and of the parsigex handler; TLC proves on the model that the transcription implies the property and that five check-dropped variants do not, and enumerates every abstract case (both paths, 12 object kinds, all data versions, all share indices and validators, every single alteration: 24,528 cases in 591 classes); each case is instantiated with real objects and real threshold-BLS shares and run through the real validatorapi endpoints and the real parsigex handler, Eth2 verifier and duty gater; TLC validates every recorded outcome against the model. New endpoints taking signed input are detected by reflection and fail the run as unmodelled.",
+   note="Trusted: TLC; crypto abstraction (no forgery attempted); beaconmock fork schedule; stubbed scheduler/DutyDB/AggSigDB inputs; the verif hook core/parsigex/verif_export.go; the executor's alteration table. Model-based test generation with a spec oracle, not state-space exploration of the implementation.",
+   technique="TLA+ case-analysis spec (Admission.tla) checked and enumerated with TLC; every case executed on real validatorapi/parsigex with real BLS; TLC validation of outcomes"),
+ "C13": dict(level=MC, design="6/C13", engine="BcastDKG",
+   text="BcastDKG.tla has one action per handler call of dkg/bcast (server: sign request with per-peer+id dedup, message delivery with the all-members signature check bound to session, id and payload; honest client; faulty member); TLC exhausts n=3,4 with one faulty member at every position, 2 sessions, 2 ids, 2-3 payloads (equivocation, relay, cross-session and cross-id replay, permuted / truncated / extended / substituted signature lists) for 9 invariants and 1 action property, with 5 controls that must fail; TLC-generated and scenario schedules (n in 3..6) are executed on real bcast.New components with real secp256k1 keys and every trace is validated against the same spec. The statement's agreement clause is checked as written (per transport sender and id); the one way it fails today is the recorded known finding C13-relay-foreign-payload.",
+   note="Trusted: TLC; the crypto abstraction; libp2p peer authentication; the verif hook dkg/bcast/verif_export.go (synchronous handlers and in-process transport). One faulty member (two colluding ones are a documented control outside the statement).",
+   technique="TLA+ spec (BcastDKG.tla) model-checked with TLC; adversarial schedules replayed on real dkg/bcast components; TLC trace validation; known-finding deviation cfg"),
 }
 NA = {
  "C14": "byte-level codec fidelity / crash-freedom on arbitrary bytes: no state machine, interleaving or protocol for a TLA+ specification to enumerate; the family's own guidance places encode/decode fidelity outside its reach (DESIGN.md section 7)",
